@@ -222,6 +222,26 @@ pub fn run(g: &mut Global) {
     // streams of 10 000 .. 20 000 inputs (hundreds of wrap-arounds); quick keeps the periods small
     let cap = g.tier.pick(48usize, 1024usize);
     g.random("long", g.tier.pick(64, 1000), &move || long_strategy(cap), &check);
+    // cached-extreme bookkeeping at every ring phase (see hist::extreme_stress), periods from the structural list
+    const XP: [usize; 16] = [2, 3, 5, 8, 31, 64, 65, 100, 127, 128, 129, 200, 256, 257, 511, 1025];
+    let seedx = g.seed;
+    g.exhaustive(
+        "extreme_stress",
+        16 * 4 * 2 * 96,
+        &move |i| {
+            let phi = (i % 96) as usize;
+            let r = i / 96;
+            let kind = [Kind::Min, Kind::Max][(r % 2) as usize];
+            let r = r / 2;
+            let pattern = (r % 4) as usize;
+            let n = XP[(r / 4) as usize];
+            // every phase for small windows, 96 spread phases for large ones (always including n-1 and 0)
+            let phase = if n <= 96 { phi % n } else if phi == 0 { 0 } else if phi == 1 { n - 1 } else { (phi * n) / 96 };
+            let vals = crate::hist::extreme_stress(n, phase, pattern, seedx ^ i.wrapping_mul(0x9E3779B97F4A7C15));
+            Case { cfg: Cfg { kind, p: vec![n], m: X(0.0) }, xs: xs(&vals), resets: vec![], stride: 0 }
+        },
+        &check,
+    );
     // windows far beyond 1024 slots (the property samples 1..=1024; block sizes and re-sync intervals of an
     // implementation may sit higher): 3n+50 inputs, the O(n) reference evaluated every n/24-th step
     let seed = g.seed;
